@@ -93,7 +93,7 @@ func (ex *Exec) eval(st *State, e ast.Expr, k func(*State, Val)) {
 		xt := ex.typeOf(e.X)
 		ex.eval(st, e.X, func(st2 *State, x Val) {
 			ex.eval(st2, e.Index, func(st3 *State, i Val) {
-				switch u := xt.Underlying().(type) {
+				switch u := under(xt).(type) {
 				case *types.Map:
 					i = ex.convert(st3, i, u.Key())
 					in := app("select", app("m-dom", x.T), i.T)
@@ -117,7 +117,7 @@ func (ex *Exec) eval(st *State, e ast.Expr, k func(*State, Val)) {
 		ex.sliceExpr(st, e, k)
 	case *ast.StarExpr:
 		ex.eval(st, e.X, func(st2 *State, p Val) {
-			elem := ex.typeOf(e.X).Underlying().(*types.Pointer).Elem()
+			elem := under(ex.typeOf(e.X)).(*types.Pointer).Elem()
 			k(st2, ex.load(st2, p, elem))
 		})
 	case *ast.UnaryExpr:
@@ -370,7 +370,7 @@ func (ex *Exec) sliceExpr(st *State, e *ast.SliceExpr, k func(*State, Val)) {
 
 func (ex *Exec) compositeLit(st *State, e *ast.CompositeLit, k func(*State, Val)) {
 	t := ex.typeOf(e)
-	switch u := t.Underlying().(type) {
+	switch u := under(t).(type) {
 	case *types.Struct:
 		ss := ex.sortOf(t)
 		vals := make([]string, u.NumFields())
@@ -452,7 +452,7 @@ func (ex *Exec) compositeLit(st *State, e *ast.CompositeLit, k func(*State, Val)
 func (ex *Exec) evalMaybeLit(st *State, e ast.Expr, t types.Type, k func(*State, Val)) {
 	if cl, ok := e.(*ast.CompositeLit); ok && cl.Type == nil {
 		// elided type: info.Types has the type recorded
-		if p, ok := t.Underlying().(*types.Pointer); ok {
+		if p, ok := under(t).(*types.Pointer); ok {
 			_ = p
 			ex.compositeLit(st, cl, func(st2 *State, v Val) {
 				ptr := ex.allocRef(st2, "lit")
@@ -474,10 +474,10 @@ func (ex *Exec) convert(st *State, v Val, to types.Type) Val {
 	ts := ex.sortOf(to)
 	if sameSort(v.S, ts) {
 		if v.S.K == KRef && v.GoT != nil && v.T != "0" {
-			_, toIface := to.Underlying().(*types.Interface)
-			_, fromIface := v.GoT.Underlying().(*types.Interface)
+			_, toIface := under(to).(*types.Interface)
+			_, fromIface := under(v.GoT).(*types.Interface)
 			if _, isTP := v.GoT.(*types.TypeParam); toIface && !fromIface && !isTP {
-				if _, isPtr := v.GoT.Underlying().(*types.Pointer); isPtr {
+				if _, isPtr := under(v.GoT).(*types.Pointer); isPtr {
 					ex.declare("(declare-fun typeOf (Ref) Int)")
 					st.assume(implies(not(eq(v.T, "0")), eq(app("typeOf", v.T), ex.typeTag(v.GoT))))
 				}
@@ -557,7 +557,7 @@ func (ex *Exec) prepareCall(st *State, call *ast.CallExpr, k func(*State, *prepa
 		}
 	}
 	pc.callee = typeutil.Callee(ex.info, call)
-	sigT, _ := ex.typeOf(fun).Underlying().(*types.Signature)
+	sigT, _ := under(ex.typeOf(fun)).(*types.Signature)
 	pc.sig = sigT
 	evalArgs := func(st *State) {
 		if pc.sig == nil {
@@ -606,13 +606,13 @@ func (ex *Exec) evalReceiver(st *State, sel *ast.SelectorExpr, s *types.Selectio
 	fn := s.Obj().(*types.Func)
 	sig := fn.Type().(*types.Signature)
 	recvT := sig.Recv().Type()
-	_, wantPtr := recvT.Underlying().(*types.Pointer)
-	if _, isIface := recvT.Underlying().(*types.Interface); isIface {
+	_, wantPtr := under(recvT).(*types.Pointer)
+	if _, isIface := under(recvT).(*types.Interface); isIface {
 		wantPtr = false
 	}
 	idx := s.Index()
 	xt := ex.typeOf(sel.X)
-	_, xIsPtr := xt.Underlying().(*types.Pointer)
+	_, xIsPtr := under(xt).(*types.Pointer)
 	// addressable boxed variable with pointer-receiver method: pass its address
 	if id, ok := unparen(sel.X).(*ast.Ident); ok && wantPtr && !xIsPtr && len(idx) == 1 {
 		if obj, ok := ex.info.Uses[id].(*types.Var); ok && ex.boxed[obj] {
@@ -631,10 +631,10 @@ func (ex *Exec) evalReceiver(st *State, sel *ast.SelectorExpr, s *types.Selectio
 		if len(idx) > 1 {
 			cur = ex.fieldPath(st2, x, idx[:len(idx)-1])
 		}
-		_, curIsPtr := cur.GoT.Underlying().(*types.Pointer)
+		_, curIsPtr := under(cur.GoT).(*types.Pointer)
 		if curIsPtr && !wantPtr {
-			if _, isIface := recvT.Underlying().(*types.Interface); !isIface {
-				cur = ex.load(st2, cur, cur.GoT.Underlying().(*types.Pointer).Elem())
+			if _, isIface := under(recvT).(*types.Interface); !isIface {
+				cur = ex.load(st2, cur, under(cur.GoT).(*types.Pointer).Elem())
 			}
 		} else if !curIsPtr && wantPtr {
 			// pointer-receiver method on an addressable field (b.lock.Lock()): allowed only for
@@ -920,6 +920,17 @@ func (ex *Exec) applyContract(st *State, fc *FuncContract, pc *preparedCall, k f
 		sig = pc.sig // instantiated signature of a generic callee
 	}
 	calleeShort := shortKey(fc.Key)
+	savedTP := ex.tparams
+	calleeTP := ex.typeArgsOf(pc)
+	ex.tparams = calleeTP
+	defer func() { ex.tparams = savedTP }()
+	kOrig := k
+	k = func(st *State, vals []Val) {
+		// the continuation is the caller's code: its own type parameters are in scope again
+		ex.tparams = savedTP
+		kOrig(st, vals)
+		ex.tparams = calleeTP
+	}
 	env := ex.calleeEnv(st, fc, fn, pc.recv, pc.args)
 	env.old = st
 	for i, rq := range fc.Requires {
@@ -972,6 +983,43 @@ func (ex *Exec) applyContract(st *State, fc *FuncContract, pc *preparedCall, k f
 		}
 	}
 	k(st, results)
+}
+
+// typeArgsOf maps the type parameter names of a generic callee to the type arguments of this call.
+func (ex *Exec) typeArgsOf(pc *preparedCall) map[string]types.Type {
+	if pc.fn == nil {
+		return nil
+	}
+	tps := pc.fn.Type().(*types.Signature).TypeParams()
+	if tps.Len() == 0 {
+		return nil
+	}
+	m := map[string]types.Type{}
+	if id := identOf(unparenIndex(pc.call.Fun)); id != nil {
+		if inst, ok := ex.info.Instances[id]; ok && inst.TypeArgs != nil {
+			for i := 0; i < tps.Len() && i < inst.TypeArgs.Len(); i++ {
+				m[tps.At(i).Obj().Name()] = inst.TypeArgs.At(i)
+			}
+			return m
+		}
+	}
+	for i := 0; i < tps.Len(); i++ {
+		m[tps.At(i).Obj().Name()] = tps.At(i)
+	}
+	return m
+}
+
+func unparenIndex(e ast.Expr) ast.Expr {
+	for {
+		switch x := unparen(e).(type) {
+		case *ast.IndexExpr:
+			e = x.X
+		case *ast.IndexListExpr:
+			e = x.X
+		default:
+			return unparen(e)
+		}
+	}
 }
 
 func (ex *Exec) havocModifies(st *State, fc *FuncContract, pc *preparedCall) {
